@@ -70,6 +70,20 @@ func nearDupPerturbations() []perturbation {
 	add("pattern inside allOf", obj(sgen.M{"label": sgen.M{"allOf": []any{obj(sgen.M{"tag": str(nil)}, nil), sgen.M{"properties": sgen.M{"tag": sgen.M{"pattern": "^a"}}}}}}, nil),
 		obj(sgen.M{"label": sgen.M{"allOf": []any{obj(sgen.M{"tag": str(nil)}, nil), sgen.M{"properties": sgen.M{"tag": sgen.M{"pattern": "^b"}}}}}}, nil),
 		M{"label": M{"tag": "ab"}}, M{"label": M{"tag": "ba"}})
+	arrIn := func(mn, mx int) sgen.M {
+		return obj(sgen.M{"window": sgen.M{"allOf": []any{obj(sgen.M{"unit": str(nil)}, nil),
+			sgen.M{"type": "object", "properties": sgen.M{"samples": sgen.M{"type": "array", "items": sgen.M{"type": "integer"}, "minItems": mn, "maxItems": mx}}}}}}, nil)
+	}
+	add("minItems/maxItems inside allOf", arrIn(2, 3), arrIn(4, 6), M{"window": M{"samples": []any{1, 2, 3}}}, M{"window": M{"samples": []any{1, 2, 3, 4, 5}}}, M{"window": M{"samples": []any{1}}})
+	brA := obj(sgen.M{"a": sgen.M{"type": "integer"}}, sgen.M{"required": []any{"a"}})
+	brB := obj(sgen.M{"b": str(nil)}, nil)
+	brC := obj(sgen.M{"c": sgen.M{"type": "boolean"}}, sgen.M{"required": []any{"c"}})
+	add("allOf with one more branch (required member)", obj(sgen.M{"detail": sgen.M{"allOf": []any{brA, brB}}}, nil), obj(sgen.M{"detail": sgen.M{"allOf": []any{brA, brB, brC}}}, nil),
+		M{"detail": M{"a": 1, "b": "x"}}, M{"detail": M{"a": 1, "b": "x", "c": true}}, M{"detail": M{"b": "x", "c": true}}, M{"detail": M{"a": 1, "c": "yes"}})
+	add("allOf branch member type", obj(sgen.M{"detail": sgen.M{"allOf": []any{brA, obj(sgen.M{"b": str(nil)}, nil)}}}, nil), obj(sgen.M{"detail": sgen.M{"allOf": []any{brA, obj(sgen.M{"b": sgen.M{"type": "integer"}}, nil)}}}, nil),
+		M{"detail": M{"a": 1, "b": "x"}}, M{"detail": M{"a": 1, "b": 2}})
+	add("allOf branch required", obj(sgen.M{"detail": sgen.M{"allOf": []any{brA, brB}}}, nil), obj(sgen.M{"detail": sgen.M{"allOf": []any{brA, obj(sgen.M{"b": str(nil)}, sgen.M{"required": []any{"b"}})}}}, nil),
+		M{"detail": M{"a": 1, "b": "x"}}, M{"detail": M{"a": 1}})
 	// (two same-named nodes that differ only INSIDE anyOf are the listed finding K34: the comparison ignores the AnyOf field)
 	add("maxItems", obj(sgen.M{"t": sgen.M{"type": "array", "items": sgen.M{"type": "integer"}, "maxItems": 1}}, nil), obj(sgen.M{"t": sgen.M{"type": "array", "items": sgen.M{"type": "integer"}, "maxItems": 3}}, nil), M{"t": []any{1}}, M{"t": []any{1, 2}}, M{"t": []any{1, 2, 3, 4}})
 	add("additional property set", obj(sgen.M{"t": str(nil)}, nil), obj(sgen.M{"t": str(nil), "u": sgen.M{"type": "integer"}}, nil), M{"t": "x"}, M{"t": "x", "u": 1}, M{"t": "x", "u": "s"})
